@@ -2,10 +2,11 @@
 
 Decided with the specification: the discrete laws (Categorical, Bernoulli, MultiCategorical; probs and logits; flat and
 sequence parameterisations; with and without masks): exact rational probabilities, total mass, mode, support of samples,
-product structure - MC_DiscreteLaws + Trace_Laws.  The continuous laws contribute harness-evaluated identities only (atoms):
-prob = exp(log_prob), sample_and_log_prob consistency, squashed samples/mode within bounds, diagonal product structure, and
-the Jacobian scaling law at the image of the base mean.  Integrals of densities, goodness of fit of samples and
-entropy = -E[log p] for continuous laws are NOT decided (no state-machine content; see DESIGN.md section 5)."""
+product structure - MC_DiscreteLaws + Trace_Laws.  Real-valued facts are harness-evaluated atoms collected by the same trace
+specification: prob = exp(log_prob), sample_and_log_prob consistency, squashed samples/mode within bounds, diagonal product
+structure, the Jacobian scaling law at the image of the base mean, and - statistically, with fixed keys and 6-sigma bounds -
+total mass (numerical integral of exp(log_prob) incl. the squashing Jacobian), goodness of fit of samples against the stated
+density / probabilities (incl. joint frequencies of product laws) and entropy = -E[log p] where entropy is defined."""
 from __future__ import annotations
 
 from ..core import Ctx, Report
@@ -41,8 +42,8 @@ def run(ctx: Ctx) -> Report:
     c16.judge(ctx, rep, "C15", evs, cases, "laws")
     rep.samples.append({"kind": "product law case", **{k: x for k, x in next(e for e in evs if e["ev"] == "multi").items()
                                                        if k in ("dims", "w", "m", "mode", "atoms")}})
-    rep.undecided += ["total mass of continuous densities (integrals incl. the full squashing Jacobian)",
-                      "samples follow the stated density (goodness of fit)", "entropy = -E[log p] for continuous laws"]
+    rep.undecided += ["statistical clauses (total mass of densities, goodness of fit, entropy = -E[log p]) are decided up to 6-sigma "
+                      "Monte-Carlo / quadrature tolerances on the sampled parameterisations, not exactly"]
     rep.assumptions += ["discrete probabilities compared with exact rationals up to 2e-6; continuous laws contribute atoms only"]
     return rep
 
